@@ -10,6 +10,7 @@ import (
 	"io"
 	"os"
 	"os/user"
+	"path/filepath"
 	"strings"
 )
 
@@ -63,6 +64,12 @@ type Pkglint struct {
 func NewPkglint(stdout io.Writer, stderr io.Writer) Pkglint {
 	cwd, err := os.Getwd()
 	assertNil(err, "os.Getwd")
+	// os.Getwd prefers $PWD, which may spell the directory through symbolic
+	// links. Paths are joined and cleaned lexically (Abs, Relpath), which
+	// only agrees with the file system for the physical directory.
+	if physical, err := filepath.EvalSymlinks(cwd); err == nil {
+		cwd = physical
+	}
 
 	p := Pkglint{
 		res:       regex.NewRegistry(),
